@@ -2,5 +2,7 @@
 package all
 
 import (
+	_ "fxmc/props/c01"
+	_ "fxmc/props/c02"
 	_ "fxmc/props/c07"
 )
